@@ -38,6 +38,7 @@ THEOREMS = [
     "Nix.C01.C01_source_create",
     "Nix.C01.C01_source_step",
     "Nix.C01.C01_source_pinned",
+    "Nix.C01.C01_empty_source",
     "Nix.C01.C01_conversion",
     "Nix.C01.C01_refused_kinds",
     "Nix.C01.C01_raised_unchanged",
@@ -1331,28 +1332,42 @@ def replay_failure(ctx, fj):
 
 READY = True
 MANIFEST = {
-    "level_text": "Kernel-checked theorems (12, no Mathlib, axioms within propext/Classical.choice/Quot.sound) over a "
-                  "Lean model of nixio's array I/O logic: create_data_array's dtype/shape rules, DataSet.append's "
-                  "rank/axis/shape checks and offset/enlarge/hyperslab computation (with the axis validation of the "
-                  "fix: commit), write_direct, region assignment with h5py's index normalisation and source "
-                  "broadcasting, data_extent resize, single/region reads, and the file->block->array compression "
-                  "resolution instantiated with the enum and the resolution statements regenerated from the source on "
-                  "every run. Proved for all inputs and histories: append = concatenation pointwise on every "
-                  "multi-index for every rank, axis and extent incl. 0, ValueError otherwise; every list of "
-                  "write/assign/append/resize/reopen steps reads back the fold of a reference semantics (functional "
-                  "update per multi-index), last write wins per multi-index; no step changes element type or filter "
-                  "flag, shapes change exactly as stated, refused steps change nothing; stored elements stay values "
-                  "of the element type; a region reads back the (broadcast) source assigned through it; creation with "
-                  "data reads back the data; content never depends on the gzip flag; complete 3x3x3x2 resolution table.",
-    "level_note": "Partial by nature: libhdf5/h5py storage (extent change, hyperslab write, gzip, close/reopen, type "
-                  "conversion, variable-length strings) is an executable stand-in inside the model; it is exercised, "
-                  "not proved, by the differential runs (thousands of seeded histories per run on real HDF5 files in "
-                  "forked workers, all 12 element types incl. NaN payloads/-0/extremes/non-ASCII text, ranks 1-4, "
-                  "extents 0-5, every compression triple, reopen at random points, bit-pattern comparison after every "
-                  "step) and by the independent numpy-mirror oracle. Outside the model: conversion between element "
-                  "kinds, NUL in text, 0-d arrays, Ellipsis/fancy indices (C06), h5py's unchecked zero-length surplus "
-                  "source dimension. Trusted: Lean kernel; the compression translator; the correspondence harness.",
+    "level_text": "Kernel-checked theorems (31, no Mathlib, axioms within propext/Classical.choice/Quot.sound) over a "
+                  "Lean model of nixio's array I/O logic, tied to the source by a compiler: on every run "
+                  "harness/extract/datasetshape.py compiles DataSet.append (every check, comprehension, the resize, "
+                  "the hyperslab write, the restore-on-failure), __getitem__/__setitem__/write_direct/len/shape/size/"
+                  "_read_data/_write_data/data_extent, H5DataSet.write_data (empty-source guard, `slc is None`)/"
+                  "read_data/shape, DataArray._read_data (single-value rule) and the dtype/shape/data rules of "
+                  "Block.create_data_array from the Python source into Lean definitions, and C01_source_* prove "
+                  "these equal, for all inputs, to the hand-written model (the driver of the correspondence executes "
+                  "the compiled definitions); the compression enum and resolution statements are regenerated too. "
+                  "Proved for all inputs and histories: append = concatenation pointwise on every multi-index for "
+                  "every rank, axis and extent incl. 0 (also with data of another element kind, converted), "
+                  "ValueError otherwise; every list of write/assign/append/resize/reopen steps reads back the fold "
+                  "of a reference semantics (functional update per multi-index), last write wins; with typed data "
+                  "(any of the 12 element types per step): a step that raised nothing is the step of its erasure, a "
+                  "step that raised leaves shape, content, element type and filter flag as they were (append "
+                  "restores the extent), the history reads back the fold over exactly the performed steps, stored "
+                  "elements are always values of the element type, conversion is the identity on values of the "
+                  "target type; complete refused-kinds table; creation reads back the (converted) data; the read "
+                  "rule (selection shape, shape (1,) only for rank-0 selections, IndexError for every selection "
+                  "error); Ellipsis expansion; shrink-then-grow fill values; content never depends on the gzip "
+                  "flag; complete 3x3x3x2 resolution table.",
+    "level_note": "Partial by nature: libhdf5/h5py storage (extent change, hyperslab write, selection normalisation, "
+                  "source broadcasting, element conversion, gzip, close/reopen, variable-length strings) is an "
+                  "executable stand-in inside the model; it is exercised, not proved, by the differential runs "
+                  "(thousands of seeded histories per run on real HDF5 files in forked workers, all 12 element "
+                  "types as array and as source type incl. NaN payloads/-0/extremes/non-ASCII text, ranks 1-4, "
+                  "extents 0-5, index arguments as None / bare item / tuple with Python and numpy integers, slices "
+                  "and Ellipsis, empty and zero-length-surplus sources, every compression triple, reopen at random "
+                  "points, bit-pattern comparison after every step) and by the independent numpy-mirror oracle. "
+                  "Outside the model: NaN or a float equal to 2^31/2^32/2^63/2^64 written into an integer array (C "
+                  "leaves the result undefined), NUL in text, 0-d arrays, boolean masks / index lists (C06). "
+                  "Statements the compiler only pins as text (string decoding after a read, calibration, name and "
+                  "compression handling of create_data_array, dtype getters, H5DataSet.__init__) are modelled by "
+                  "hand. Trusted: Lean kernel; the two translators; the correspondence harness.",
     "technique": "Lean 4 proof (structural induction over shapes and histories, pointwise refinement to a reference "
-                 "semantics, case analysis over the regenerated compression enum) with differential correspondence on "
-                 "real HDF5 files and a numpy-mirror property oracle",
+                 "semantics, equality of source-compiled definitions with the model, case analysis over the "
+                 "regenerated compression enum) with differential correspondence on real HDF5 files and a "
+                 "numpy-mirror property oracle",
 }
